@@ -118,6 +118,25 @@ func (t *Transport) Last() *Exchange {
 	return t.Exchanges[len(t.Exchanges)-1]
 }
 
+// DropTrailers makes the most recent call deliver no HTTP trailers (a body cut
+// by the transport never gets them).
+func (t *Transport) DropTrailers() {
+	t.mu.Lock()
+	defer t.mu.Unlock()
+	if len(t.calls) == 0 {
+		return
+	}
+	c := t.calls[len(t.calls)-1]
+	c.mu.Lock()
+	c.dropTrailers = true
+	if c.response != nil {
+		for k := range c.response.Trailer {
+			delete(c.response.Trailer, k)
+		}
+	}
+	c.mu.Unlock()
+}
+
 // AbortAll tears every in-flight call down (used after a detected deadlock so
 // that the bubble can be left).
 func (t *Transport) AbortAll() {
@@ -216,6 +235,7 @@ type call struct {
 	response     *http.Response
 	reqCloseOnce sync.Once
 	stopAfter    func() bool
+	dropTrailers bool
 }
 
 func (c *call) closeClientReqBody(who string) {
@@ -588,7 +608,7 @@ func (b *respBody) Read(p []byte) (int, error) {
 	c.t.gate("C.read.ret")
 	if err == io.EOF {
 		c.mu.Lock()
-		if !c.respEOFSeen {
+		if !c.respEOFSeen && !c.dropTrailers {
 			c.respEOFSeen = true
 			c.ex.mu.Lock()
 			tr := canonicalClone(c.ex.RespTrail)
